@@ -942,3 +942,359 @@ func ruleContReqResolved(c *Ctx, rule string) {
 		c.unresolvedRoot("pops of Client.contReqs")
 	}
 }
+
+// ruleLostUpdateOnCopy: C12.p / C03.o. Number sets are slice types whose
+// mutators have pointer receivers. `s := cmd.set; s.AddNum(n)` mutates a copy
+// of the slice header: when the local is not read again (and not stored back)
+// after the mutating call, the update is lost — the command forgets which
+// messages it has already been given.
+func ruleLostUpdateOnCopy(c *Ctx, rule string, pkgs ...string) {
+	p := c.P
+	n := 0
+	for _, fn := range p.SrcFuncs(pkgs...) {
+		allInstrs(fn, func(i ssa.Instruction) {
+			call, ok := i.(*ssa.Call)
+			if !ok || len(call.Call.Args) == 0 {
+				return
+			}
+			o := calleeObj(call)
+			if o == nil || recvNamed(o) == nil {
+				return
+			}
+			sig, _ := o.Type().(*types.Signature)
+			if sig == nil || sig.Recv() == nil {
+				return
+			}
+			if _, isPtr := sig.Recv().Type().(*types.Pointer); !isPtr {
+				return
+			}
+			if !strings.HasPrefix(o.Name(), "Add") && !strings.HasPrefix(o.Name(), "Remove") && !strings.HasPrefix(o.Name(), "Insert") {
+				return
+			}
+			cell, ok := call.Call.Args[0].(*ssa.Alloc)
+			if !ok {
+				return
+			}
+			// the local was initialised from a field (a copy of shared state)
+			var from *fieldRef
+			for _, ref := range *cell.Referrers() {
+				if st, ok := ref.(*ssa.Store); ok && st.Addr == ssa.Value(cell) {
+					if r, ok := loadedField(st.Val); ok && r.Field != nil {
+						rr := r
+						from = &rr
+					}
+				}
+			}
+			if from == nil {
+				return
+			}
+			n++
+			// read again after the call?
+			usedAfter := false
+			for _, ref := range *cell.Referrers() {
+				if ref == ssa.Instruction(call) {
+					continue
+				}
+				if _, isStore := ref.(*ssa.Store); isStore {
+					continue
+				}
+				rb := ref.Block()
+				if rb == call.Block() && precedes(call, ref) || rb != call.Block() && reaches(call.Block(), rb) {
+					usedAfter = true
+				}
+			}
+			c.check(usedAfter, rule, fmt.Sprintf("%s: %s on a copy of %s", fnKey(fn), o.Name(), from.String()), call.Pos(),
+				"the mutated local is read again (stored back or used) after the call",
+				fmt.Sprintf("%s is copied into a local, the copy is mutated through the pointer-receiver method %s and never read again: the update is lost in %s (slice header copied by value)", from.String(), o.Name(), from.String()))
+		})
+	}
+	if n == 0 {
+		c.okTrivial(rule, "no pointer-receiver mutation of a local copy of a field", token.NoPos, "0 sites in "+strings.Join(pkgs, ","))
+	}
+}
+
+// ruleNoRuneReencoding: C01.k / C03.p. The wire encoder carries strings as
+// bytes. Iterating a string by rune on the write path and writing the runes
+// back replaces every byte that is not valid UTF-8 by U+FFFD: a value the
+// backend supplied (raw 8-bit header data) arrives changed.
+func ruleNoRuneReencoding(c *Ctx, rule string) {
+	p := c.P
+	n, bad := 0, 0
+	for _, fn := range p.SrcFuncs("internal/imapwire") {
+		if nm := recvNamedOfFn(fn); nm == nil || nm.Obj().Name() != "Encoder" {
+			continue
+		}
+		allInstrs(fn, func(i ssa.Instruction) {
+			rg, ok := i.(*ssa.Range)
+			if !ok {
+				return
+			}
+			if b, ok := rg.X.Type().Underlying().(*types.Basic); !ok || b.Info()&types.IsString == 0 {
+				return
+			}
+			n++
+			// does the rune (Extract #2 of Next) flow into a write?
+			writes := false
+			var walk func(v ssa.Value, d int)
+			seen := map[ssa.Value]bool{}
+			walk = func(v ssa.Value, d int) {
+				if v == nil || seen[v] || d > 6 || v.Referrers() == nil {
+					return
+				}
+				seen[v] = true
+				for _, ref := range *v.Referrers() {
+					switch u := ref.(type) {
+					case *ssa.Next:
+						walk(u, d+1)
+					case *ssa.Extract:
+						if u.Index == 2 {
+							walk(u, d+1)
+						}
+					case *ssa.Convert:
+						walk(u, d+1)
+					case ssa.CallInstruction:
+						if o := calleeObj(u); o != nil && (strings.HasPrefix(o.Name(), "Write") || strings.HasPrefix(o.Name(), "Append") || o.Name() == "writeString") {
+							writes = true
+						}
+					case *ssa.BinOp:
+						if u.Op == token.ADD {
+							writes = true // string concatenation
+						}
+					case *ssa.Phi:
+						walk(u, d+1)
+					}
+				}
+			}
+			walk(rg, 0)
+			if writes {
+				bad++
+				c.fail(rule, fmt.Sprintf("%s: range over string#%d", fnKey(fn), bad), rg.Pos(),
+					"the encoder iterates a string by rune and writes the runes back: bytes that are not valid UTF-8 are replaced by U+FFFD on the wire (the value no longer round-trips)")
+			}
+		})
+	}
+	if bad == 0 {
+		c.ok(rule, "the wire encoder never re-encodes runes", token.NoPos, fmt.Sprintf("%d range-over-string loops in Encoder methods, none writes the rune back", n))
+	}
+}
+
+// ruleConstIndexGuarded: C06.l / C15.g. An index or re-slice with a constant
+// offset into a string or slice that can be empty (a decoded atom after
+// TrimSuffix, a caller-supplied set) needs a dominating length test: `x[0]`,
+// `x[1:]`, `&x[0]`.
+func ruleConstIndexGuarded(c *Ctx, rule string, pkgs ...string) {
+	p := c.P
+	n := 0
+	for _, fn := range p.SrcFuncs(pkgs...) {
+		type site struct {
+			at   ssa.Instruction
+			base ssa.Value
+			k    int64
+		}
+		var sites []site
+		allInstrs(fn, func(i ssa.Instruction) {
+			switch x := i.(type) {
+			case *ssa.Lookup:
+				if b, ok := x.X.Type().Underlying().(*types.Basic); ok && b.Info()&types.IsString != 0 {
+					if k, ok := constInt(x.Index); ok {
+						sites = append(sites, site{i, x.X, k})
+					}
+				}
+			case *ssa.IndexAddr:
+				if _, ok := x.X.Type().Underlying().(*types.Slice); ok {
+					if k, ok := constInt(x.Index); ok {
+						sites = append(sites, site{i, x.X, k})
+					}
+				}
+			case *ssa.Slice:
+				if x.Low != nil {
+					if k, ok := constInt(x.Low); ok && k > 0 {
+						if _, isArr := x.X.Type().Underlying().(*types.Pointer); !isArr {
+							sites = append(sites, site{i, x.X, k - 1})
+						}
+					}
+				}
+			}
+		})
+		if len(sites) == 0 {
+			continue
+		}
+		// names under which a value is known: itself, and the cell it was loaded from
+		keyOf := func(v ssa.Value) string {
+			if ld, ok := v.(*ssa.UnOp); ok && ld.Op == token.MUL {
+				if al, ok := ld.X.(*ssa.Alloc); ok {
+					return "cell:" + al.Name()
+				}
+				if r, ok := loadedField(v); ok && r.Field != nil {
+					return "field:" + r.String() + "@" + r.Base.Name()
+				}
+			}
+			return "val:" + v.Name()
+		}
+		lenOf := func(v ssa.Value) (ssa.Value, bool) {
+			if call, ok := v.(*ssa.Call); ok {
+				if b, ok := call.Call.Value.(*ssa.Builtin); ok && b.Name() == "len" && len(call.Call.Args) == 1 {
+					return call.Call.Args[0], true
+				}
+			}
+			return nil, false
+		}
+		edge := func(f facts, b *ssa.BasicBlock, s int) facts {
+			for _, a := range edgeAtoms(b, s) {
+				// len(x) > k, len(x) >= k, len(x) != 0, len(x) == k
+				if x, ok := lenOf(a.V); ok && a.Const != nil {
+					if k, ok := constInt(a.Const); ok {
+						min := int64(-1)
+						switch a.Op {
+						case token.GTR:
+							min = k + 1
+						case token.GEQ:
+							min = k
+						case token.NEQ:
+							if k == 0 {
+								min = 1
+							}
+						case token.EQL:
+							min = k
+						}
+						for m := int64(1); m <= min && m <= 8; m++ {
+							f = f.with(fmt.Sprintf("len>=%d:%s", m, keyOf(x)))
+						}
+					}
+				}
+				// x != ""
+				if a.Const != nil && a.Op == token.NEQ {
+					if sv, ok := constString(a.Const); ok && sv == "" {
+						f = f.with("len>=1:" + keyOf(a.V))
+					}
+				}
+				// strings.HasPrefix(x, "lit") true
+				if call, ok := a.V.(*ssa.Call); ok && a.True == 1 {
+					if o := calleeObj(call); o != nil && o.Pkg() != nil && o.Pkg().Path() == "strings" && (o.Name() == "HasPrefix" || o.Name() == "HasSuffix") && len(call.Call.Args) == 2 {
+						if lit, ok := constString(call.Call.Args[1]); ok {
+							for m := 1; m <= len(lit) && m <= 8; m++ {
+								f = f.with(fmt.Sprintf("len>=%d:%s", m, keyOf(call.Call.Args[0])))
+							}
+						}
+					}
+				}
+			}
+			return f
+		}
+		gen := func(f facts, i ssa.Instruction) facts {
+			// a store into a cell forgets what was known about it
+			if st, ok := i.(*ssa.Store); ok {
+				if al, ok := st.Addr.(*ssa.Alloc); ok {
+					suffix := ":cell:" + al.Name()
+					return f.without(func(s string) bool { return strings.HasSuffix(s, suffix) })
+				}
+			}
+			return f
+		}
+		flow := mustFlow(fn, facts{}, gen, edge)
+		for _, st := range sites {
+			// constant-length sources are fine
+			if _, isConst := st.base.(*ssa.Const); isConst {
+				continue
+			}
+			if sl, ok := st.base.(*ssa.Slice); ok {
+				if _, isArr := sl.X.Type().Underlying().(*types.Pointer); isArr {
+					continue // a slice of a fixed-size array (varargs)
+				}
+			}
+			if _, isMk := st.base.(*ssa.MakeSlice); isMk {
+				continue
+			}
+			// a buffer the function builds itself with append: its length is
+			// the function's own business (value-level), not an input
+			built := func(v ssa.Value) bool {
+				seen := map[ssa.Value]bool{}
+				var rec func(v ssa.Value) bool
+				rec = func(v ssa.Value) bool {
+					if seen[v] {
+						return true
+					}
+					seen[v] = true
+					switch x := v.(type) {
+					case *ssa.Call:
+						if b, ok := x.Call.Value.(*ssa.Builtin); ok && b.Name() == "append" {
+							return true
+						}
+						if o := calleeObj(x); o != nil && o.Pkg() != nil && o.Pkg().Path() == "strconv" {
+							return true
+						}
+					case *ssa.MakeSlice:
+						return true
+					case *ssa.Slice:
+						// make([]T, 0, const) is lowered to a slice of a fresh array
+						if al, ok := x.X.(*ssa.Alloc); ok {
+							if _, isArr := al.Type().Underlying().(*types.Pointer).Elem().Underlying().(*types.Array); isArr {
+								return true
+							}
+						}
+						return rec(x.X)
+					case *ssa.Phi:
+						for _, e := range x.Edges {
+							if !rec(e) {
+								return false
+							}
+						}
+						return true
+					}
+					return false
+				}
+				return rec(v)
+			}
+			if built(st.base) {
+				continue
+			}
+			// loop indexes guarded by the loop condition are not constants: only constants get here
+			f, reach := flow.at(st.at)
+			if !reach {
+				continue
+			}
+			n++
+			key := fmt.Sprintf("%s: constant index %d#%d", fnKey(fn), st.k, countKey(c, rule, fmt.Sprintf("%s: constant index %d#", fnKey(fn), st.k))+1)
+			c.check(f.has(fmt.Sprintf("len>=%d:%s", st.k+1, keyOf(st.base))), rule, key, st.at.Pos(),
+				"dominated by a length test that covers the index",
+				fmt.Sprintf("index/offset %d is applied without a preceding length test on every path: on an empty (or shorter) value this panics — a string decoded from the wire can be empty after trimming, a caller's set can be empty", st.k))
+		}
+	}
+	if n == 0 {
+		c.okTrivial(rule, "no constant index into a variable-length value", token.NoPos, "0 sites in "+strings.Join(pkgs, ","))
+	}
+}
+
+// instrPos: a source position for an instruction that has none of its own
+// (stores of constants, synthetic slices): an operand's, or the nearest
+// instruction's in the block.
+func instrPos(i ssa.Instruction) token.Pos {
+	if i.Pos().IsValid() {
+		return i.Pos()
+	}
+	for _, op := range i.Operands(nil) {
+		if *op != nil && (*op).Pos().IsValid() {
+			return (*op).Pos()
+		}
+	}
+	if b := i.Block(); b != nil {
+		after := false
+		for _, j := range b.Instrs {
+			if j == i {
+				after = true
+			}
+			if after && j.Pos().IsValid() {
+				return j.Pos()
+			}
+		}
+		for _, j := range b.Instrs {
+			if j.Pos().IsValid() {
+				return j.Pos()
+			}
+		}
+	}
+	if fn := i.Parent(); fn != nil {
+		return fn.Pos()
+	}
+	return token.NoPos
+}
